@@ -1,4 +1,5 @@
 import HavocVerif.Model.Http
+import HavocVerif.Gen.HttpGate
 /-
   C12 — An HTTP listener serves only requests that match its profile.
 -/
@@ -84,6 +85,119 @@ theorem sender_address (cfg : HttpConfig) (r : HttpReq) :
 
 theorem forwarded_ignored_without_redir (cfg : HttpConfig) (r : HttpReq) (h : cfg.behindRedir = false) :
     senderAddress cfg r = r.peerHost := by simp [senderAddress, h]
+
+/-! ### The handler as written: statement-level model, refinement, regenerated skeleton -/
+
+theorem headerLoopGo_eq (r : HttpReq) (hs : List Str) :
+    headerLoopGo r hs = (hs.filterMap fun h => match splitColonSpace h with
+      | some (n, v) => if ignoredHeader n then none else some (n, v)
+      | none => none).all fun (n, v) => eqFold (r.get n) v := by
+  induction hs with
+  | nil => rfl
+  | cons h hs ih =>
+    unfold headerLoopGo
+    cases hsp : splitColonSpace h with
+    | none => simp [hsp, ih]
+    | some nv =>
+      obtain ⟨n, v⟩ := nv
+      by_cases hi : ignoredHeader n = true
+      · simp [hsp, hi, ih]
+      · have hi' : ignoredHeader n = false := by simpa using hi
+        by_cases he : lowerS (r.get n) = lowerS v
+        · simp [hsp, hi', ih, eqFold, he]
+        · simp [hsp, hi', eqFold, he]
+
+theorem uriLoopGo_eq (uri : Str) (us : List Str) : uriLoopGo uri us = us.contains uri := by
+  induction us with
+  | nil => rfl
+  | cons u us ih =>
+    by_cases h : uri = u
+    · simp [uriLoopGo, h]
+    · simp [uriLoopGo, h, ih]
+
+theorem urisGuard_eq (cfg : HttpConfig) :
+    (cfg.uris.length > 0 && !(cfg.uris.length == 1 && cfg.uris.head? == some [])) = urisConfigured cfg := by
+  unfold urisConfigured
+  rcases cfg.uris with _ | ⟨u, _ | ⟨u', us⟩⟩
+  · simp
+  · by_cases h : u = [] <;> simp [h]
+  · simp
+
+/-- the handler, guard by guard in the order of the source, lets through exactly what `admits` admits: every route
+    and every early return is accounted for -/
+theorem serveGo_refines (cfg : HttpConfig) (r : HttpReq) :
+    (serveGo cfg r = .parsed) ↔ admits cfg r = true := by
+  unfold serveGo admits requestGo
+  rw [urisGuard_eq, uriLoopGo_eq, headerLoopGo_eq]
+  unfold headersOk checkedHeaders uriOk uaOk
+  generalize (List.all _ _) = a
+  generalize urisConfigured cfg = b
+  generalize cfg.uris.contains r.requestUri = c
+  generalize r.get "User-Agent".toList = ua
+  simp only [bne]
+  rcases Bool.eq_false_or_eq_true (cfg.userAgent == []) with hd | hd <;>
+  rcases Bool.eq_false_or_eq_true (cfg.userAgent == ua) with he | he <;>
+  rcases Bool.eq_false_or_eq_true (r.method == "POST".toList) with hm | hm <;>
+  cases a <;> cases b <;> cases c <;> simp only [hd, he, hm] <;> decide
+
+/-- a request that is not admitted gets the decoy page and its body never reaches the agent protocol -/
+theorem not_admitted_is_decoy (cfg : HttpConfig) (r : HttpReq) (h : admits cfg r = false) :
+    serveGo cfg r = .fake404 := by
+  cases hs : serveGo cfg r with
+  | fake404 => rfl
+  | parsed => rw [(serveGo_refines cfg r).mp hs] at h; cases h
+
+def rejects (e : String × String × List String) : Bool := e.2.2 == ["fake404", "return"]
+
+/-- regenerated from http.go on every run, decided on the extracted skeleton: in `request` the three rejecting guards
+    (each ends in `fake404; return`) stand in front of every statement that sets a response header, parses the body or
+    writes an answer; nothing answers before them; and after the body was handed over the only other way out is the
+    decoy -/
+theorem guards_dominate :
+    (Gen.HttpGate.skeleton.takeWhile rejects).length = 3 ∧
+    ((Gen.HttpGate.skeleton.takeWhile rejects).map (·.2.1)) =
+      ["valid == false", "len(h.Config.Uris) > 0 && !(len(h.Config.Uris) == 1 && h.Config.Uris[0] == \"\")",
+       "h.Config.UserAgent != \"\""] ∧
+    ((Gen.HttpGate.skeleton.dropWhile rejects).map (·.2.2)).flatten.head? = some "Header" ∧
+    (((Gen.HttpGate.skeleton.dropWhile rejects).map (·.2.2)).flatten.filter (· == "parseAgentRequest")).length = 1 ∧
+    Gen.HttpGate.routes = [("POST", ["/*endpoint", "h.request"]), ("GET", ["/*endpoint", "h.fake404"]), ("NoRoute", ["h.fake404"])] := by
+  decide
+
+/-- regenerated: the three checks statement for statement, as `headerLoopGo`, `uriLoopGo` and `requestGo` transcribe them -/
+theorem checks_transcribed :
+    Gen.HttpGate.inits = ["valid := true", "IgnoreHeaders := [2]string{\"Connection\", \"Accept-Encoding\"}"] ∧
+    Gen.HttpGate.headerLoop =
+      ["for _, Header := range h.Config.Headers {",
+       "NameValue := strings.SplitN(Header, \": \", 2)",
+       "if len(NameValue) > 1 {",
+       "ignore := false",
+       "for _, IgnoreHeader := range IgnoreHeaders {",
+       "if strings.ToLower(NameValue[0]) == strings.ToLower(IgnoreHeader) {",
+       "ignore = true", "break", "}", "}",
+       "if ignore == false {",
+       "if strings.ToLower(ctx.Request.Header.Get(NameValue[0])) != strings.ToLower(NameValue[1]) {",
+       "MissingHdr = NameValue[0] + \": \" + ctx.Request.Header.Get(NameValue[0])",
+       "valid = false", "break", "}", "}", "}", "}"] ∧
+    Gen.HttpGate.uriCheck =
+      ["if len(h.Config.Uris) > 0 && !(len(h.Config.Uris) == 1 && h.Config.Uris[0] == \"\") {",
+       "valid = false",
+       "for _, Uri := range h.Config.Uris {",
+       "if ctx.Request.RequestURI == Uri {",
+       "valid = true", "break", "}", "}",
+       "if valid == false {",
+       "logger.Warn(fmt.Sprintf(\"got a request with an invalid request path: %s\", ctx.Request.RequestURI))",
+       "h.fake404(ctx)", "return", "}", "}"] ∧
+    Gen.HttpGate.uaCheck =
+      ["if h.Config.UserAgent != \"\" {",
+       "if h.Config.UserAgent != ctx.Request.UserAgent() {",
+       "logger.Warn(fmt.Sprintf(\"got a request with an invalid user agent: %s\", ctx.Request.UserAgent()))",
+       "h.fake404(ctx)", "return", "}", "}"] :=
+  ⟨rfl, rfl, rfl, rfl⟩
+
+example : serveGo ⟨["/a".toList], ["X-Tok: a: b".toList, "Connection: close".toList], "UA".toList, [], false⟩
+    ⟨"POST".toList, "/a".toList, [("x-tok".toList, "A: B".toList), ("User-Agent".toList, "UA".toList)], "1.2.3.4".toList⟩ = .parsed := by
+  decide
+example : serveGo ⟨["/a".toList], [], [], [], false⟩ ⟨"GET".toList, "/a".toList, [], "1.2.3.4".toList⟩ = .fake404 := by decide
 
 /-! non-vacuity -/
 example : admits ⟨["/a".toList], ["X-Tok: a: b".toList, "Connection: close".toList], "UA".toList, [], false⟩
